@@ -69,6 +69,11 @@ bool ecdsa_sign(const Ec *k, const B &digest, Sig &out);
 bool ecdsa_verify_lib(const Ec *k, const B &digest, const Sig &sg);   // ECDSA_do_verify on raw r,s
 bool ecdsa_verify_math(const Ec *k, const B &digest, const Sig &sg);  // own SEC1 4.1.4 implementation on BN/EC_POINT
 bool ecdsa_parse_der_strict(const B &der, Sig &out);                  // d2i_ECDSA_SIG + canonical re-encoding
+// deterministic signature: nonce = 1 + (ksel mod (n-1)), incremented until r and s are non-zero (SEC1 4.1.3 with a chosen k)
+bool ecdsa_sign_nonce(const Ec *k, const B &digest, const B &ksel, Sig &out);
+// one complete INTEGER TLV read with d2i_ASN1_INTEGER (two's complement, X.690 8.3) and required to re-encode to the same
+// bytes: true iff tlv is THE DER encoding of an integer; the value is returned as magnitude + sign
+bool der_integer_strict(const B &tlv, B &mag, bool &neg);
 // Build (digest, r, s) from the private key such that in verification u1*G == u2*Q (kind 0, valid signature,
 // needs the point-doubling path) or u1*G == -u2*Q (kind 1, sum is infinity, invalid signature).
 bool ecdsa_special(const Ec *k, int kind, const B &t, const B &rsel, B &digest, Sig &out);
